@@ -72,6 +72,24 @@ func (ex *Exec) callFunction(fr *Frame, st *State, fn *ssa.Function, bind []Valu
 		return v
 	}
 	ct := ex.P.contractOf(fn)
+	if k, ok := ex.unrollCallsFor(fn); ok && len(fn.Blocks) > 0 && !onStack(fr, fn) {
+		// the caller's contract asks for this callee to be executed, its loops unrolled
+		nf := newFrame(fn, fr)
+		nf.freevars = bind
+		nf.unrollAll = k
+		ex.noObl++
+		v, out := ex.runFunction(nf, st, args)
+		ex.noObl--
+		if out == nil {
+			st.G = False
+			return zeroOrFresh(rt)
+		}
+		*st = *out
+		if v == nil {
+			return TupV{Ty: rt}
+		}
+		return v
+	}
 	if ct != nil && !ct.Inline && !(fr.isSpec) {
 		return ex.applyContract(fr, st, ct, fn, fn.Signature, args, pos, rt)
 	}
@@ -90,6 +108,20 @@ func (ex *Exec) callFunction(fr *Frame, st *State, fn *ssa.Function, bind []Valu
 		return v
 	}
 	return ex.havocCall(fr, st, name, args, rt)
+}
+
+func (ex *Exec) unrollCallsFor(fn *ssa.Function) (int, bool) {
+	if ex.contract == nil || len(ex.contract.UnrollCalls) == 0 {
+		return 0, false
+	}
+	if k, all := ex.contract.UnrollCalls["*"]; all && strings.HasPrefix(pkgPathOf(fn), ex.P.modulePath) {
+		return k, true
+	}
+	k, ok := ex.contract.UnrollCalls[fnKey(fn)]
+	if !ok {
+		k, ok = ex.contract.UnrollCalls[fn.String()]
+	}
+	return k, ok
 }
 
 func zeroOrFresh(rt types.Type) Value {
